@@ -100,6 +100,7 @@ def check(P, R):
             R.ob('C12.b', f, None, ok, text=f'{f.name} may raise {cname} ({where.split(" ", 1)[-1]})', detail='' if ok else
                  f'{cname} escaping the reader is not a RequestError: _body does not convert it', key_extra=where.split(' ', 1)[-1])
     c05.check_raise_and_body(P, R, 'C12.b')
+    c05.check_errors_mapping(P, R, 'C12.b')
     # the markup constructor is inside the converting try
     fb = cls_.methods['_body']
     for c in [x for x in walk_shallow(fb.node) if isinstance(x, ast.Call) and dotted(x.func) == 'MultipartMarkup']:
@@ -155,24 +156,28 @@ def check(P, R):
     pq = P.func('ombott.request_pkg.helpers:parse_qsl')
     sub = _Sub(R, {'C18.a': 'C12.d'})
     loop_progress_parse_qsl(P, sub)
-    # chunk-size scan capped (C05.d cap)
-    fc = P.func(f'{BM}:_iter_chunked')
-    gc = fc.cfg
-    inc = [x for x in walk_shallow(fc.node) if isinstance(x, ast.AugAssign) and isinstance(x.target, ast.Name) and isinstance(x.op, ast.Add) and is_const(x.value, 1)]
-    cnts = {x.target.id for x in inc}
-    for lp_ in walk_shallow(fc.node):
-        # `for read_len in count(1)` counts the iterations as well
-        if isinstance(lp_, ast.For) and isinstance(lp_.target, ast.Name) and isinstance(lp_.iter, ast.Call) and \
-                (dotted(lp_.iter.func) or '').split('.')[-1] in ('count', 'range'):
-            cnts.add(lp_.target.id)
-            inc = inc or [lp_]
-    cap = [n for n in gc.nodes if n.kind == 'test' and 'buff_size' in names_loaded(n.ast) and cnts & names_loaded(n.ast)]
-    ok = False
-    for n in cap:
-        reach = gc.reachable_from(T.succ_by_label(n, 'true'))
-        ok = ok or gc.exit not in reach
-    R.ob('C12.d', fc, cap[0].ast if cap else fc.node, ok and bool(inc), text='size-line scan: read_len += 1, read_len > buff_size -> error', detail='' if ok and inc else
-         'the chunk size line is scanned without bound')
+    check_size_line_cap(P, R, 'C12.d')
+    # the regular expressions applied to body bytes / part headers have no repetition whose alternatives overlap (no exponential backtracking)
+    from .. import regexast as RX
+    n_rx = 0
+    for mname in ('ombott.request_pkg.multipart', 'ombott.request_pkg.body_mixin', 'ombott.request_pkg.helpers'):
+        mod_ = P.module(mname)
+        pats = []
+        for st_ in ast.walk(mod_.tree):
+            if isinstance(st_, ast.Call) and dotted(st_.func) in ('re.compile', 're.match', 're.search', 're.finditer', 're.fullmatch', 're.sub', 're.split') and st_.args:
+                pats.append(st_)
+        for c_ in pats:
+            for lit_ in (RX.pattern_literal(c_.args[0], {k: v[0] for k, v in mod_.assigns.items() if len(v) == 1}) or []):
+                tree_ = RX.parse(lit_.replace('\x00HOLE\x00', 'X') if isinstance(lit_, str) else lit_.replace(b'\x00HOLE\x00', b'X'))
+                if tree_ is None:
+                    continue
+                n_rx += 1
+                amb = RX.ambiguous_repeats(tree_)
+                R.ob('C12.d', f'{mod_.relpath}:{c_.lineno}', None, not amb, text=f'pattern {lit_!r}: no overlapping alternatives under a repetition', detail='' if not amb else
+                     f'{amb[0]}: a run of the shared character can be split in exponentially many ways, all of which are tried when the closing part of the pattern is '
+                     f'missing (e.g. an unterminated quoted parameter with a run of backslashes) - reading the form spins in `re` instead of answering',
+                     why='reading the form never hangs', key_extra=f'rx:{lit_!r}')
+    R.require(n_rx >= 2, f'only {n_rx} literal patterns found in the body-parsing modules')
     # _eat_data: the window start advances on every path round the loop
     ed = P.func(f'{MP}:BodyMarkuper._eat_data')
     ge = ed.cfg
@@ -208,6 +213,29 @@ def check(P, R):
 
     # ---- e
     c13.check_get_body_string(P, _Sub(R, {}), 'C12.e')
+
+
+def check_size_line_cap(P, R, rid):
+    """the scan of a chunk size line counts every byte it reads and gives up once that count exceeds the buffer size (extension bytes included)"""
+    # chunk-size scan capped (C05.d cap)
+    fc = P.func(f'{BM}:_iter_chunked')
+    gc = fc.cfg
+    inc = [x for x in walk_shallow(fc.node) if isinstance(x, ast.AugAssign) and isinstance(x.target, ast.Name) and isinstance(x.op, ast.Add) and is_const(x.value, 1)]
+    cnts = {x.target.id for x in inc}
+    for lp_ in walk_shallow(fc.node):
+        # `for read_len in count(1)` counts the iterations as well
+        if isinstance(lp_, ast.For) and isinstance(lp_.target, ast.Name) and isinstance(lp_.iter, ast.Call) and \
+                (dotted(lp_.iter.func) or '').split('.')[-1] in ('count', 'range'):
+            cnts.add(lp_.target.id)
+            inc = inc or [lp_]
+    cap = [n for n in gc.nodes if n.kind == 'test' and 'buff_size' in names_loaded(n.ast) and cnts & names_loaded(n.ast)]
+    ok = False
+    for n in cap:
+        reach = gc.reachable_from(T.succ_by_label(n, 'true'))
+        ok = ok or gc.exit not in reach
+    R.ob(rid, fc, cap[0].ast if cap else fc.node, ok and bool(inc), text='size-line scan: read_len += 1, read_len > buff_size -> error', detail='' if ok and inc else
+         'the bytes read while scanning a chunk size line (digits, extension, CR) are not counted against the buffer size: a chunk extension of any length is '
+         'read without being charged to any limit', why='at most the limit plus one buffer is read from the stream before the request is refused')
 
 
 def loop_progress_parse_qsl(P, R):
